@@ -45,6 +45,28 @@ CHECKS['C19'] = ('Hypothesis @given screening frames (planted noisy geos / outli
                  'Generated frames; what is removed is compared with what is reported, the aggregated series with totals recomputed from the screened rows, and a permuted copy must give the same report.',
                  'Full panels; detection power not claimed; documented ValueErrors accepted.', '6 C19')
 
+SEARCH_NOTE = 'Decided for <=6 geos (quick) / <=8 geos (thorough); real-valued bounds with 1e-9 relative dont-care band; ValueError outcomes accepted (C09 decides crashes).'
+CHECKS['C01'] = ('Hypothesis @given panel x eligibility x parameters, both searches; validity predicate computed from the raw table/frame',
+                 'Generated inputs incl. every constraint kind; each returned design checked for legality against the user-level table and frame, plus admitted-set clauses on the object.', SEARCH_NOTE, '6 C01')
+CHECKS['C02'] = ('Hypothesis @given constraint-heavy inputs with data-aware bounds; independent recomputation of sizes, exact Fraction ratios, shares (both readings), closed-form budget',
+                 'Every returned design re-measured from the raw frame; non-trivial only when a specified constraint is binding in the brute-force legal space.', SEARCH_NOTE, '6 C02')
+CHECKS['C03'] = ('Hypothesis @given + brute-force enumeration of the whole legal/feasible space with independent scores; top-k dominance over the complement, allowed-pruning set',
+                 'For each generated input the full 3^n assignment space over the admitted geos is enumerated and scored independently; the result list is checked for feasibility, score equality, order, length, completeness and dominance.', SEARCH_NOTE + ' Fragile discrete score entries create no obligation.', '6 C03')
+CHECKS['C04'] = ('Hypothesis @given; series re-aggregated by geo ID from the raw frame; independent re-implementation of every diagnostic and of the score tuple (differential)',
+                 'Every returned design at every position: series, correlation, required impact, regression fit, four tests, joint verdict and score tuple recomputed independently.', SEARCH_NOTE + ' A/A probability is a pinned-behaviour model.', '6 C04')
+CHECKS['C09'] = ('Hypothesis @given degenerate-biased inputs; outcome in {list of designs, ValueError}; exception bucketing (type, innermost frame); CPU-time watchdog',
+                 'Generated infeasible / extreme inputs on both searches; any exception other than ValueError, a non-list result or a CPU-budget overrun is a violation.', 'Termination observed under a 120 s CPU budget, not proved.', '6 C09')
+CHECKS['C10'] = ('Hypothesis RuleBasedStateMachine over the public query/search/result API; fresh-object model per call; immutability invariants on parameters and frames',
+                 'Generated call histories on one object; each answer compared with a freshly built object; caller-owned inputs compared with deep copies after every step.', 'Panels <=4 geos (quick) / <=5 (thorough), <=10 / <=25 steps.', '6 C10')
+CHECKS['C11'] = ('itertools enumeration of all eligibility class-count vectors x settings + Hypothesis up to 9 geos; count == generator listing == independent 3-way assignment enumeration',
+                 'Finite sub-domain enumerated completely (<=4 geos quick with a rotating sixth of the settings, <=6 geos x all 180 settings thorough); larger vectors sampled.', 'Fractions for the ratio; synthetic 8-date panel.', '6 C11')
+CHECKS['C12'] = ('Hypothesis @given metamorphic: base vs transformed input (row permutation, date shift, ID dtype, renaming, 2^k scale), tie-tolerant comparison; cross-PYTHONHASHSEED child runs (thorough)',
+                 'Generated base inputs x drawn transformations on both searches; results must agree up to renaming / exact scaling.', SEARCH_NOTE, '6 C12')
+CHECKS['C13'] = ('Hypothesis @given without budget/share constraints; greedy designs must lie in the brute-force feasible set; best(greedy) <= best(exhaustive); empty => empty',
+                 'Generated inputs; feasible set computed by the oracle (not taken from the exhaustive output).', SEARCH_NOTE, '6 C13')
+CHECKS['C15'] = ('Hypothesis @given long frames (missing cells, dtypes, order) x eligibility subset/equal/superset x geo-index orders vs independent pivot / means / shares / aggregates',
+                 'Generated frames; canonical table, row order, shares, retained eligibility, assignable set, index-based assignments and aggregates recomputed independently; accept/ValueError predicate.', 'No duplicate (geo, date) rows; geo_index as list of string IDs.', '6 C15')
+
 PENDING = {}
 
 
